@@ -10,7 +10,7 @@ from common import *
 
 PROPS = ["C20", "C13"]
 SCENARIOS = [["timer", "cad"], ["timer", "closelast"], ["timer", "writer"], ["writer", "cad"], ["writer", "closelast"],
-             ["open1", "open2"], ["open1", "closelast"], ["viewbg", "cad"], ["viewbg", "closelast"]]
+             ["open1", "open2"], ["open1", "closelast"], ["viewbg", "cad"], ["viewbg", "closelast"], ["ddoc", "cad"], ["ddoc", "closelast"]]
 
 
 def cfg_text(procs, stopfirst, gen):
